@@ -1,18 +1,266 @@
 import GbVerif.Model.Core
 import GbVerif.Spec.CoreSpec
+import GbVerif.Proofs.CoreStep
+import GbVerif.Proofs.CoreRefine
 /-!
 C08 — EI delay, DI/RETI immediacy and HALT/STOP suspension hold for any sequence.
+
+All theorems are about the model of `Core::update` / `run_interp` / `handle_interrupt` (instruction-stepped build) and hold
+for ANY device function `dev` and from ANY core state — hence along any instruction sequence: every step of a run is an
+instance.  A `run_interp` step is described by its parts:
+  `hx : Cpu.runNextOp c.regs c.bus = .ok (r, b, st, e)`   the instruction: registers, bus, status (0 normal, 1 STOP, 2 HALT,
+                                                          3 DI, 4 EI, 5 RETI), block-end flag
+  `hd : dev b (r.cycles * 4) = .ok bus`                   the device catch-up
+  `h  : runInterp dev c = .ok c'`                         the whole step (instruction, status, catch-up, interrupt check)
+"No dispatch in this step" is: `c'.regs = { r with cycles := 0 }` (PC, SP and all registers as the instruction left them) and
+`c'.bus = bus` (IF, IE, memory as the devices left them).
 -/
 namespace GbVerif.C08
-open GbVerif.Core
+open GbVerif.Core GbVerif.CoreProofs GbVerif.Interp
 
 /-- no interrupt is ever dispatched while the master enable is off or only pending (EI not yet effective):
 `handle_interrupt` leaves PC, SP, cycles and the bus alone -/
 theorem no_dispatch_when_ime_off (c : State) (hi : c.ime ≠ .Enabled) :
-    ∃ c', handleInterrupt c = .ok c' ∧ c'.regs = c.regs ∧ c'.ime = c.ime ∧ c'.bus.io.ifl = c.bus.io.ifl := by
-  unfold handleInterrupt
+    ∃ c', handleInterrupt c = .ok c' ∧ c'.regs = c.regs ∧ c'.ime = c.ime ∧ c'.bus = c.bus := by
   by_cases h : activeInterrupts c.bus = 0
-  · exact ⟨c, by simp [h], rfl, rfl, rfl⟩
-  · exact ⟨{ c with run := .Run }, by simp [h, hi], rfl, rfl, rfl⟩
+  · exact ⟨c, handleInterrupt_idle c h, rfl, rfl, rfl⟩
+  · exact ⟨{ c with run := .Run }, handleInterrupt_masked c h hi, rfl, rfl, rfl⟩
+
+/-- the same lifted to a whole step: if the master enable is not Enabled once the instruction's status has been applied
+(`imeAfter`), the step's interrupt check changes neither PC/SP/registers nor IF/IE/memory, whatever is pending -/
+theorem no_dispatch_in_step (dev : Dev) (c c' : State) (r : Regs) (b bus : Bus.State) (st : Nat) (e : Bool)
+    (hx : Cpu.runNextOp c.regs c.bus = .ok (r, b, st, e)) (hd : dev b (r.cycles * 4) = .ok bus)
+    (h : runInterp dev c = .ok c') (hi : imeAfter c.ime st ≠ .Enabled) :
+    c'.regs = { r with cycles := 0 } ∧ c'.bus = bus ∧ c'.ime = imeAfter c.ime st ∧ c'.charged = c.charged + (r.cycles - c.regs.cycles) := by
+  rw [runInterp_of hx hd] at h
+  have := handleInterrupt_no_dispatch h hi
+  exact ⟨this.1, this.2.1, this.2.2.1, this.2.2.2.1⟩
+
+/-- and in a suspended step -/
+theorem no_dispatch_in_halted_step (dev : Dev) (c c' : State) (bus : Bus.State) (hr : c.run ≠ .Run)
+    (hd : dev c.bus 4 = .ok bus) (h : update dev c = .ok c') (hi : c.ime ≠ .Enabled) :
+    c'.regs = c.regs ∧ c'.bus = bus ∧ c'.ime = c.ime := by
+  rw [update_halted_of hr hd] at h
+  have := handleInterrupt_no_dispatch h hi
+  exact ⟨this.1, this.2.1, this.2.2.1⟩
+
+/-- a dispatch needs IME = Enabled at the interrupt check: contrapositive over a step, stated on the charged cycles -/
+theorem dispatch_only_when_enabled (dev : Dev) (c c' : State) (r : Regs) (b bus : Bus.State) (st : Nat) (e : Bool)
+    (hx : Cpu.runNextOp c.regs c.bus = .ok (r, b, st, e)) (hd : dev b (r.cycles * 4) = .ok bus)
+    (h : runInterp dev c = .ok c') (hdisp : c'.regs.cycles ≠ 0) : imeAfter c.ime st = .Enabled ∧ activeInterrupts bus ≠ 0 := by
+  rw [runInterp_of hx hd] at h
+  rcases handleInterrupt_outcomes h with ⟨_, rfl⟩ | ⟨_, _, rfl⟩ | ⟨h0, hi, _⟩
+  · exact absurd rfl hdisp
+  · exact absurd rfl hdisp
+  · exact ⟨hi, h0⟩
+
+/-- EI from Disabled: the master enable is only *scheduled* (EnableNext) and this step dispatches nothing, even with an
+enabled request pending -/
+theorem ei_no_dispatch_this_step (dev : Dev) (c c' : State) (r : Regs) (b bus : Bus.State) (e : Bool)
+    (hx : Cpu.runNextOp c.regs c.bus = .ok (r, b, STATUS_INTERRUPT_ENABLE, e)) (hd : dev b (r.cycles * 4) = .ok bus)
+    (h : runInterp dev c = .ok c') (hi : c.ime = .Disabled) :
+    c'.ime = .EnableNext ∧ c'.regs = { r with cycles := 0 } ∧ c'.bus = bus := by
+  have hn : imeAfter c.ime STATUS_INTERRUPT_ENABLE ≠ .Enabled := by rw [hi]; decide
+  have := no_dispatch_in_step dev c c' r b bus _ e hx hd h hn
+  rw [hi] at this
+  exact ⟨this.2.2.1, this.1, this.2.1⟩
+
+/-- the instruction after EI: when it completes the master enable is on (unless it is DI), so a request pending after the
+catch-up is dispatched at the end of *this* step -/
+theorem ei_effective_after_next (dev : Dev) (c c' : State) (r : Regs) (b bus : Bus.State) (st : Nat) (e : Bool)
+    (hx : Cpu.runNextOp c.regs c.bus = .ok (r, b, st, e)) (hd : dev b (r.cycles * 4) = .ok bus)
+    (h : runInterp dev c = .ok c') (hi : c.ime = .EnableNext) (hst : st ≠ STATUS_INTERRUPT_DISABLE) :
+    (activeInterrupts bus ≠ 0 → c'.ime = .Disabled ∧ c'.regs.cycles = 5 ∧ c'.run = .Run ∧
+        c'.regs.ip ∈ [0x00, 0x40, 0x48, 0x50, 0x58, 0x60]) ∧
+    (activeInterrupts bus = 0 → c'.ime = .Enabled ∧ c'.regs = { r with cycles := 0 }) := by
+  rw [runInterp_of hx hd] at h
+  have hen : (sampled (afterOp c r b st) bus false).ime = .Enabled := by
+    show imeAfter c.ime st = .Enabled
+    rw [hi]; exact imeAfter_pending st hst
+  constructor
+  · intro h0
+    have := handleInterrupt_dispatch h h0 hen
+    exact ⟨this.2.1, this.2.2.1, this.1, this.2.2.2.2⟩
+  · intro h0
+    have := handleInterrupt_quiet h h0
+    subst this
+    exact ⟨hen, rfl⟩
+
+/-- **ei_takes_effect_after_next**, over two consecutive steps of any run: `EI` executed with IME off, then any instruction
+other than DI.  Nothing is dispatched at the end of the EI step although a request may be pending; with a request pending
+after the second instruction's catch-up, the dispatch happens at the end of the second step -/
+theorem ei_takes_effect_after_next (dev : Dev) (c0 c1 c2 : State)
+    (r1 : Regs) (b1 bus1 : Bus.State) (e1 : Bool) (r2 : Regs) (b2 bus2 : Bus.State) (st2 : Nat) (e2 : Bool)
+    (hi : c0.ime = .Disabled)
+    (hx1 : Cpu.runNextOp c0.regs c0.bus = .ok (r1, b1, STATUS_INTERRUPT_ENABLE, e1)) (hd1 : dev b1 (r1.cycles * 4) = .ok bus1)
+    (h1 : runInterp dev c0 = .ok c1)
+    (hx2 : Cpu.runNextOp c1.regs c1.bus = .ok (r2, b2, st2, e2)) (hd2 : dev b2 (r2.cycles * 4) = .ok bus2)
+    (h2 : runInterp dev c1 = .ok c2) (hst : st2 ≠ STATUS_INTERRUPT_DISABLE) (hp : activeInterrupts bus2 ≠ 0) :
+    (c1.regs.ip = r1.ip ∧ c1.regs.sp = r1.sp ∧ c1.bus = bus1 ∧ c1.regs.cycles = 0) ∧
+    (c2.regs.cycles = 5 ∧ c2.ime = .Disabled ∧ c2.regs.ip ∈ [0x00, 0x40, 0x48, 0x50, 0x58, 0x60]) := by
+  have s1 := ei_no_dispatch_this_step dev c0 c1 r1 b1 bus1 e1 hx1 hd1 h1 hi
+  have s2 := (ei_effective_after_next dev c1 c2 r2 b2 bus2 st2 e2 hx2 hd2 h2 s1.1 hst).1 hp
+  refine ⟨⟨?_, ?_, s1.2.2, ?_⟩, s2.2.1, s2.1, s2.2.2.2⟩ <;> rw [s1.2.1]
+
+/-- DI takes effect immediately: whatever the master enable was (on, off, or scheduled by an EI just before), after a DI
+step it is off and the step dispatched nothing -/
+theorem di_immediate (dev : Dev) (c c' : State) (r : Regs) (b bus : Bus.State) (e : Bool)
+    (hx : Cpu.runNextOp c.regs c.bus = .ok (r, b, STATUS_INTERRUPT_DISABLE, e)) (hd : dev b (r.cycles * 4) = .ok bus)
+    (h : runInterp dev c = .ok c') :
+    c'.ime = .Disabled ∧ c'.regs = { r with cycles := 0 } ∧ c'.bus = bus := by
+  have hn : imeAfter c.ime STATUS_INTERRUPT_DISABLE ≠ .Enabled := by rw [imeAfter_di]; decide
+  have := no_dispatch_in_step dev c c' r b bus _ e hx hd h hn
+  rw [imeAfter_di] at this
+  exact ⟨this.2.2.1, this.1, this.2.1⟩
+
+/-- RETI takes effect immediately: the master enable is on *before the interrupt check of the same step*, so a request
+pending after the catch-up is dispatched at the end of the RETI step itself -/
+theorem reti_immediate (dev : Dev) (c c' : State) (r : Regs) (b bus : Bus.State) (e : Bool)
+    (hx : Cpu.runNextOp c.regs c.bus = .ok (r, b, STATUS_INTERRUPT_ENABLE_IMMEDIATE, e)) (hd : dev b (r.cycles * 4) = .ok bus)
+    (h : runInterp dev c = .ok c') :
+    (activeInterrupts bus ≠ 0 → c'.ime = .Disabled ∧ c'.regs.cycles = 5 ∧ c'.regs.ip ∈ [0x00, 0x40, 0x48, 0x50, 0x58, 0x60]) ∧
+    (activeInterrupts bus = 0 → c'.ime = .Enabled ∧ c'.regs = { r with cycles := 0 }) := by
+  rw [runInterp_of hx hd] at h
+  have hen : (sampled (afterOp c r b STATUS_INTERRUPT_ENABLE_IMMEDIATE) bus false).ime = .Enabled := imeAfter_reti c.ime
+  constructor
+  · intro h0
+    have := handleInterrupt_dispatch h h0 hen
+    exact ⟨this.2.1, this.2.2.1, this.2.2.2.2⟩
+  · intro h0
+    have := handleInterrupt_quiet h h0
+    subst this
+    exact ⟨hen, rfl⟩
+
+/-- HALT / STOP enter the suspended state (unless an enabled request is pending after the catch-up, which wakes the CPU
+at once — the case the property excludes) -/
+theorem halt_enters (dev : Dev) (c c' : State) (r : Regs) (b bus : Bus.State) (st : Nat) (e : Bool)
+    (hx : Cpu.runNextOp c.regs c.bus = .ok (r, b, st, e)) (hd : dev b (r.cycles * 4) = .ok bus)
+    (h : runInterp dev c = .ok c') (hst : st = STATUS_HALT ∨ st = STATUS_STOP) (h0 : activeInterrupts bus = 0) :
+    c'.run = (if st = STATUS_HALT then .Halt else .Stop) ∧ c'.regs = { r with cycles := 0 } := by
+  rw [runInterp_of hx hd] at h
+  have := handleInterrupt_quiet h h0
+  subst this
+  rcases hst with rfl | rfl <;> exact ⟨rfl, rfl⟩
+
+/-- **halt_suspends**: while suspended with no enabled request after the device catch-up, a step executes no instruction:
+every register (PC, SP, AF..HL), the master enable and the run state are unchanged, the bus is what the devices left,
+exactly 4 clocks are delivered and one machine cycle is charged -/
+theorem halt_suspends (dev : Dev) (c c' : State) (bus : Bus.State) (hr : c.run ≠ .Run) (hd : dev c.bus 4 = .ok bus)
+    (h0 : activeInterrupts bus = 0) (h : update dev c = .ok c') :
+    c'.regs = c.regs ∧ c'.run = c.run ∧ c'.ime = c.ime ∧ c'.bus = bus ∧ c'.delivered = c.delivered + 4 ∧ c'.charged = c.charged + 1 := by
+  rw [update_halted_of hr hd] at h
+  have := handleInterrupt_quiet h h0
+  subst this
+  exact ⟨rfl, rfl, rfl, rfl, rfl, rfl⟩
+
+/-- over any number of steps: as long as the CPU stays suspended, no instruction executes — registers unchanged, 4 clocks and
+one machine cycle per step -/
+theorem halt_suspends_n (dev : Dev) : ∀ (n : Nat) (c c' : State), iter (update dev) n c = .ok c' →
+    (∀ k ck, k ≤ n → iter (update dev) k c = .ok ck → ck.run ≠ .Run) →
+    c'.regs = c.regs ∧ c'.ime = c.ime ∧ c'.delivered = c.delivered + 4 * n ∧ c'.charged = c.charged + n := by
+  intro n
+  induction n with
+  | zero => intro c c' h _; injection h with h; subst h; exact ⟨rfl, rfl, rfl, rfl⟩
+  | succ n ih =>
+    intro c c' h hs
+    obtain ⟨c1, h1, h2⟩ := bind_ok_elim h
+    have hr : c.run ≠ .Run := hs 0 c (by omega) rfl
+    have hr1 : c1.run ≠ .Run := hs 1 c1 (by omega) (by show (update dev c >>= iter (update dev) 0) = _; rw [h1]; rfl)
+    obtain ⟨bus, hd, h3⟩ := update_halted_shape hr h1
+    -- still suspended after the step: nothing was pending (a pending request sets the run state to Run)
+    have h0 : activeInterrupts bus = 0 := by
+      rcases handleInterrupt_outcomes h3 with ⟨h0, _⟩ | ⟨_, _, e⟩ | ⟨_, _, _, _, _, e⟩
+      · exact h0
+      · subst e; exact absurd rfl hr1
+      · subst e; exact absurd rfl hr1
+    have s1 := halt_suspends dev c c1 bus hr hd h0 h1
+    have s2 := ih c1 c' h2 (fun k ck hk hck => hs (k + 1) ck (by omega) (by show (update dev c >>= iter (update dev) k) = _; rw [h1]; exact hck))
+    refine ⟨s2.1.trans s1.1, s2.2.1.trans s1.2.2.1, ?_, ?_⟩
+    · rw [s2.2.2.1, s1.2.2.2.2.1]; omega
+    · rw [s2.2.2.2, s1.2.2.2.2.2]; omega
+
+/-- **halt_resumes**: when an enabled request is present after the catch-up of a suspended step, the run state becomes Run;
+with the master enable off (or only scheduled) all registers are unchanged — the next step fetches at the unchanged PC, the
+instruction following HALT/STOP; with the master enable on the step ends in a dispatch (PC at the vector, +5 cycles) -/
+theorem halt_resumes (dev : Dev) (c c' : State) (bus : Bus.State) (hr : c.run ≠ .Run) (hd : dev c.bus 4 = .ok bus)
+    (h0 : activeInterrupts bus ≠ 0) (h : update dev c = .ok c') :
+    c'.run = .Run ∧
+    (c.ime ≠ .Enabled → c'.regs = c.regs ∧ c'.ime = c.ime ∧ c'.bus = bus ∧ update dev c' = runInterp dev c') ∧
+    (c.ime = .Enabled → c'.ime = .Disabled ∧ c'.regs.cycles = c.regs.cycles + 5 ∧
+        c'.regs.ip ∈ [0x00, 0x40, 0x48, 0x50, 0x58, 0x60]) := by
+  rw [update_halted_of hr hd] at h
+  rcases handleInterrupt_outcomes h with ⟨h1, _⟩ | ⟨_, hi, e⟩ | ⟨_, hi, b1, b2, sp2, e⟩
+  · exact absurd h1 h0
+  · subst e
+    exact ⟨rfl, fun _ => ⟨rfl, rfl, rfl, update_run dev _ rfl⟩, fun he => absurd he hi⟩
+  · have hd' := handleInterrupt_dispatch h h0 hi
+    exact ⟨hd'.1, fun hn => absurd hi hn, fun _ => ⟨hd'.2.1, hd'.2.2.1, hd'.2.2.2.2⟩⟩
+
+/-- HALT is a one-byte instruction: the PC it leaves — where execution resumes — is the address following it -/
+theorem halt_pc (β : Type) (B : BusOps β) (r : Regs) (m : β) (len : Nat) :
+    runOp B .Halt r m len = .ok ({ r with ip := r.ip + 1 }, m, STATUS_HALT) := rfl
+
+/-- **update_refines_spec_partial**: one step of the model (with devices that only let time pass: `dev = fun b _ => .ok b`)
+is one step of the step spec `CoreSpec.step` (SM83.step + the IME rule + the dispatch spec) under the abstraction `absS`
+(registers through `C05.abs`, IME / run state / bus / charged cycles as they are, "dispatched" = cycle counter non-zero).
+HYPOTHESIS `hI` (not an axiom; an explicit premise): the instruction-level refinement — whenever `run_next_op` returns, the
+three bytes at PC read through the bus and `SM83.step` on the abstracted registers give the abstracted result, the same bus,
+the status as outcome, and as machine cycles the growth of the cycle counter.  It is the composition of
+`C05.step_refines_impl` (Proofs/Sm83Main.lean: `stepModel` refines `SM83.step` for byte-valued buses) with
+`C10.fetch_eq_read` (the fetch view equals the data read in ROM/WRAM/HRAM) and the byte-valuedness of the bus model's
+memories, neither of which is composed here.  See `CoreRefine.InstrRefines`. -/
+theorem update_refines_spec_partial (hI : InstrRefines) (c c' : State) (hw : WFs c)
+    (h : update noTime c = .ok c') : CoreSpec.step (absS c) = .ok (some (absS c')) ∧ WFs c' :=
+  CoreProofs.update_refines hI c c' hw h
+
+/-! ### concrete runs: the hypotheses are satisfiable and the steps behave as stated -/
+
+/-- a toy device: counts its calls in the TIMA register and requests the Timer interrupt at the third call -/
+def dev3 : Dev := fun b _ =>
+  .ok { b with io := { b.io with timer := { b.io.timer with counter := b.io.timer.counter + 1 },
+                                 ifl := b.io.ifl ||| (if b.io.timer.counter == 2 then 4 else 0) } }
+
+def rom (code : List Nat) : Nat → Nat := fun i => if i < 0x100 then 0 else code.getD (i - 0x100) 0
+
+/-- code at 0x100, Timer enabled in IE, requested in IF iff `ifl = 4`; stack in WRAM (zero-filled: RETI returns to 0x0000) -/
+def mk (code : List Nat) (ifl : Nat) (ime : Ime) : State :=
+  let b := Bus.create .mbc1 4 32768 (rom code)
+  { regs := { sp := 0xdff0, ip := 0x100 }, bus := { b with io := { b.io with ifl := ifl, ie := 4 } }, ime := ime }
+
+def imeCode : Ime → Nat | .Enabled => 0 | .Disabled => 1 | .EnableNext => 2
+
+/-- (PC, IME, run state ≠ Run, IF, cycle counter) after `n` steps -/
+def obs (dev : Dev) (n : Nat) (c : State) : Option (Nat × Nat × Nat × Nat × Nat) :=
+  match iter (update dev) n c with
+  | .ok c => some (c.regs.ip, imeCode c.ime, (if c.run = .Run then 0 else 1), c.bus.io.ifl, c.regs.cycles)
+  | .error _ => none
+
+/-- EI; NOP; NOP with the Timer pending: after EI nothing is dispatched (PC 0x101, IME = EnableNext) … -/
+example : obs noTime 1 (mk [0xfb, 0x00, 0x00] 4 .Disabled) = some (0x101, 2, 0, 4, 0) := by decide +kernel
+/-- … the dispatch happens when the following NOP has completed (PC = vector 0x50, IF bit cleared, 5 cycles pending) -/
+example : obs noTime 2 (mk [0xfb, 0x00, 0x00] 4 .Disabled) = some (0x50, 1, 0, 0, 5) := by decide +kernel
+/-- EI; DI: the DI cancels the scheduled enable: no dispatch, IME off -/
+example : obs noTime 3 (mk [0xfb, 0xf3, 0x00] 4 .Disabled) = some (0x103, 1, 0, 4, 0) := by decide +kernel
+/-- EI; EI; NOP: the second EI does not restart the delay: dispatch at the end of the second EI -/
+example : obs noTime 2 (mk [0xfb, 0xfb, 0x00] 4 .Disabled) = some (0x50, 1, 0, 0, 5) := by decide +kernel
+/-- RETI with the Timer pending: dispatch at the end of the RETI step itself (return address 0x0000 pushed again) -/
+example : obs noTime 1 (mk [0xd9] 4 .Disabled) = some (0x50, 1, 0, 0, 5) := by decide +kernel
+/-- DI with IME on and the Timer pending: no dispatch in the DI step -/
+example : obs noTime 1 (mk [0xf3] 4 .Enabled) = some (0x101, 1, 0, 4, 0) := by decide +kernel
+/-- HALT, nothing pending, device `dev3`: suspended at the PC after HALT (0x101) through the second call … -/
+example : obs dev3 2 (mk [0x76, 0x00] 0 .Disabled) = some (0x101, 1, 1, 0, 0) := by decide +kernel
+/-- … the third call raises the Timer request: the CPU wakes, IME off so PC stays at the instruction after HALT … -/
+example : obs dev3 3 (mk [0x76, 0x00] 0 .Disabled) = some (0x101, 1, 0, 4, 0) := by decide +kernel
+/-- … and the next step executes it -/
+example : obs dev3 4 (mk [0x76, 0x00] 0 .Disabled) = some (0x102, 1, 0, 4, 0) := by decide +kernel
+/-- the same with IME on: the wake-up step ends in the handler -/
+example : obs dev3 3 (mk [0x76, 0x00] 0 .Enabled) = some (0x50, 1, 0, 0, 5) := by decide +kernel
+/-- STOP (two bytes) suspends the same way -/
+example : obs dev3 2 (mk [0x10, 0x00, 0x00] 0 .Disabled) = some (0x102, 1, 1, 0, 0) := by decide +kernel
+
+/-- the refinement's well-formedness is satisfiable -/
+example : WFs (mk [0xfb, 0x00] 4 .Disabled) :=
+  ⟨by unfold C05.WF; decide, BusProofs.wf_set_io (BusProofs.wf_create .mbc1 4 32768 _ (by omega)) _, ⟨by decide, by decide, rfl⟩,
+   fun h => absurd rfl h⟩
 
 end GbVerif.C08
